@@ -48,6 +48,17 @@ def gen_strings(tier, rng):
             yield b"a" + e[:k]
             yield e[:k] + b"a"
             yield e + e[:k]
+    # long payloads (the verdict never depends on the length): whole, cut inside the last character, one bad byte at either end / in the middle
+    for L in (4096, 16384, 65535, 65536, 65537, 70001) + ((131072, 200003) if tier != "quick" else ()):
+        unit = "aé€\U0001F600z".encode("utf-8")
+        body = (unit * (L // len(unit) + 1))[:L]
+        while body and (body[-1] & 0xC0) == 0x80 or body and body[-1] >= 0xC0:
+            body = body[:-1]                      # back to a character boundary
+        body = body + b"a" * (L - len(body))
+        for tail in (b"", b"\xe2\x82", b"\xf0\x9f\x98", b"\xc3", b"\xe2\x82\xac", b"\xff"):
+            yield body[:L - len(tail)] + tail
+        yield b"\x80" + body[1:]
+        yield body[:L // 2] + b"\xed\xa0\x80" + body[L // 2 + 3:L - 1] + b"a"
     # structured random: valid text with one mutation
     n = 3000 if tier == "quick" else 60000
     for _ in range(n):
@@ -228,7 +239,7 @@ def run(ctx):
 
     return T.result(
         "every byte string of length <= 2, boundary-byte strings of length 3 (4 in thorough), every boundary scalar "
-        "value whole and truncated at every length, mutated random valid text; all (state, byte) pairs of _decode; "
+        "value whole and truncated at every length, mutated random valid text, payloads of 4096..70001 (200003) bytes whole / cut inside the last character / with one bad byte; all (state, byte) pairs of _decode; "
         "text messages under every cutting into <= 3 (4) fragments with validation on/off and as close reasons. "
         "non-trivial = contains a byte >= 0x80 (strings) or more than one fragment (API); distinct = distinct byte "
         "strings / fragment tuples",
